@@ -460,12 +460,15 @@ var (
 		{"foo", "and", "bar"},
 		{"count(", "up == 1", ") by (job) < 3"},
 	}
-	durPool     = []string{"5m", "1h", "30s", "0s", "2d", "1m30s"}
-	labelKeys   = []string{"severity", "team", "job", "env", "component"}
-	labelVals   = []string{"critical", "warning", "page", "foo bar", "{{ $labels.job }}", "a#b", "x: y", "it's", `say "hi"`, "aaaa", "sev-1", "  padded"}
-	annKeys     = []string{"summary", "description", "runbook", "dashboard", "link"}
-	annVals     = []string{"Instance {{ $labels.instance }} down", "value is {{ $value }}", "https://example.com/wiki#anchor", "foo", "a: b", "{{ $labels.job }} on {{ $labels.instance }}", "it's down", "summary summary", "x"}
-	commentPool = []string{"# a comment", "# TODO: fix", "#", "# pint-like but not: pintx disable foo"}
+	durPool   = []string{"5m", "1h", "30s", "0s", "2d", "1m30s"}
+	labelKeys = []string{"severity", "team", "job", "env", "component"}
+	labelVals = []string{"critical", "warning", "page", "foo bar", "{{ $labels.job }}", "a#b", "x: y", "it's", `say "hi"`, "aaaa", "sev-1", "  padded"}
+	annKeys   = []string{"summary", "description", "runbook", "dashboard", "link"}
+	annVals   = []string{"Instance {{ $labels.instance }} down", "value is {{ $value }}", "https://example.com/wiki#anchor", "foo", "a: b", "{{ $labels.job }} on {{ $labels.instance }}", "it's down", "summary summary", "x"}
+	// values with multi-byte characters (GenOpts.NonASCII): columns are bytes, displayed characters are not
+	nonASCIIVals  = []string{"kraków", "µs latency on {{ $labels.instance }}", "日本 dc", "température élevée: {{ $value }}", "Instancja {{ $labels.instance }} nie działa", "naïve – dash", "ü"}
+	nonASCIIExprs = []string{`up{dc="kraków"} == 0`, `foo{name=~"日本.*"} > 1`, `sum(rate(requests_total{kraj="Polska – południe"}[5m])) by (job) > 10`}
+	commentPool   = []string{"# a comment", "# TODO: fix", "#", "# pint-like but not: pintx disable foo"}
 )
 
 type GenOpts struct {
@@ -477,6 +480,7 @@ type GenOpts struct {
 	Flow        bool
 	Comments    bool
 	CRLF        bool
+	NonASCII    bool // mix values with multi-byte characters in
 	MaxRules    int
 	MaxGroups   int
 	Exprs       []string // override expression pool
@@ -679,6 +683,9 @@ func RandRule(r *rand.Rand, o GenOpts, ord int) Rule {
 		exprs = o.Exprs
 		multi = nil
 	}
+	if o.NonASCII && len(o.Exprs) == 0 {
+		exprs = append(append([]string{}, exprs...), nonASCIIExprs...)
+	}
 	alert := r.Intn(2) == 0
 	var fields []Field
 	nameKey := "record"
@@ -704,6 +711,9 @@ func RandRule(r *rand.Rand, o GenOpts, ord int) Rule {
 		perm := r.Perm(len(keys))
 		f := Field{Key: key}
 		flow := o.Flow && r.Intn(5) == 0
+		if o.NonASCII {
+			vals = append(append([]string{}, vals...), nonASCIIVals...)
+		}
 		for i := 0; i < n; i++ {
 			v := pick(r, vals)
 			var sc Scalar
